@@ -82,6 +82,59 @@ def material(tok):
     return None
 
 
+def raw_mac_key(tok):
+    """(hash name, MAC key bytes) a usable configuration authenticates with (RFC 2104 HMAC), None if unusable"""
+    p = tok.split('/')
+    if material(tok) is None:
+        return None
+    if p[0] == 'hmac':
+        return p[1].lower(), unhex(p[2])
+    if p[0] == 'aes':
+        return p[3].lower(), unhex(p[4])
+    sz, k = CBC[p[1]], unhex(p[2])
+    if len(k) == sz + 20:
+        return 'sha1', k[sz:]
+    name = 'sha256' if len(k) * 8 <= 256 else 'sha512'
+    return 'sha1', pyhmac.new(k, b'\x01', name).digest()[:20]
+
+
+KAT_AES = [('000102030405060708090a0b0c0d0e0f', '69c4e0d86a7b0430d8cdb78070b4c55a'),
+           ('000102030405060708090a0b0c0d0e0f1011121314151617', 'dda97ca4864cdfe06eaf70a0ec0d7191'),
+           ('000102030405060708090a0b0c0d0e0f101112131415161718191a1b1c1d1e1f', '8ea2b7ca516745bfeafc49904b496089')]
+KAT_PLAIN = '00112233445566778899aabbccddeeff'
+
+
+def check_prims(prims):
+    """the HMAC values handed to the model are RFC 2104 HMACs (independent Python implementation)"""
+    for t in prims:
+        if t.startswith('H='):
+            a, k, m, tag = t[2:].split(',')
+            if pyhmac.new(unhex(k), unhex(m), ALGS[int(a)]).digest() != unhex(tag):
+                return ('hmac-primitive-wrong', 'cppcms::crypto::hmac(%s) differs from RFC 2104 HMAC for key %s message %s' % (ALGS[int(a)], k[:64], m[:64]))
+    return None
+
+
+def oracle_kat(case, out):
+    ct = case.split(' ')
+    if crashed(out):
+        return [('crash', 'the harness died: ' + out[:300], None)]
+    head, items, prims, extra = parse_impl(out)
+    r = check_prims(prims)
+    if r:
+        return [(r[0], r[1], None)]
+    if ct[1] == 'aes':
+        got = {t[2:].split(',')[2]: t[2:].split(',')[1] for t in prims if t.startswith('B=')}
+        for y in ct[3:]:
+            want = KAT_PLAIN if (ct[2], y) in KAT_AES else None
+            if y not in got:
+                return [('aes-primitive-missing', 'no block decryption reported', None)]
+            if want and got[y] != want:
+                return [('aes-primitive-wrong', 'cppcms::crypto::cbc decryption of the FIPS-197 vector is wrong', None)]
+    elif not any(t.startswith('H=') for t in prims):
+        return [('hmac-primitive-missing', 'no HMAC value reported', None)]
+    return []
+
+
 def mac_dlen(tok):
     p = tok.split('/')
     if p[0] == 'hmac':
@@ -187,7 +240,7 @@ def pool_split(ct):
         k, v = t.split('=', 1)
         if k == 'now' and 'now' in a:
             break
-        if k not in ('prim', 'now', 'enc', 'mac', 'cbc', 'key', 'hkey', 'ckey', 'timeout', 'expire', 'kv'):
+        if k not in ('prim', 'now', 'enc', 'mac', 'cbc', 'key', 'hkey', 'ckey', 'keyfile', 'hkeyfile', 'ckeyfile', 'timeout', 'expire', 'kv'):
             break
         a[k] = v
         i += 1
@@ -198,6 +251,8 @@ def model_line(case, out):
     """the scenario as the model sees it: same operations, candidates as explicit cookie strings, the first cipher
     block of the first issued cookie (the IV is its decryption) and the primitive values printed by the harness"""
     ct = case.split(' ')
+    if ct[0] == 'kat':
+        return case
     head, items, prims, extra = parse_impl(out)
     it = iter(items)
     if ct[0] == 'scn':
@@ -237,6 +292,8 @@ def canon_impl(case, out):
     """implementation answer in the vocabulary of the model driver"""
     if crashed(out):
         return out
+    if case.startswith('kat '):
+        return out.split(' ')[0]
     head, items, prims, extra = parse_impl(out)
     pool = case.startswith('pool ')
     res = [head]
@@ -340,6 +397,12 @@ def oracle_scn(case, out):
                 if len(plain) >= 12 and plain[8:] in ci:
                     bad.append(('aes-plaintext-visible', 'the payload occurs verbatim in the cipher text', ti))
             issued.add(ci)
+            rk = raw_mac_key(cfgA)
+            if rk:
+                dl_ = DLEN[rk[0]]
+                if len(ci) < dl_ or pyhmac.new(rk[1], ci[:-dl_], rk[0]).digest() != ci[-dl_:]:
+                    bad.append(('issued-cookie-mac-wrong', 'the tag of an issued cookie is not the RFC 2104 HMAC of everything before it '
+                                'under the configured MAC key', ti))
             if dt:
                 saves[ci] = dt
                 texts[cookie] = dt
@@ -403,7 +466,13 @@ def pool_prim_token(a):
     enc, mac, cbc = (unhex(a.get(k, '-')).decode('latin-1') for k in ('enc', 'mac', 'cbc'))
 
     def key(name):
-        s = unhex(a.get(name, '-'))
+        if name + 'file' in a:
+            s = unhex(a[name + 'file'])
+            if not s:
+                return None                 # an empty key file is refused
+            s = s.rstrip(b' \n\r\t')
+        else:
+            s = unhex(a.get(name, '-'))
         if len(s) % 2 or not re.fullmatch(rb'[0-9a-fA-F]*', s):
             return None
         return bytes.fromhex(s.decode())
@@ -518,6 +587,8 @@ def oracle_all(case, out):
         return oracle_scn(case, out)
     if case.startswith('pool '):
         return oracle_pool(case, out)
+    if case.startswith('kat '):
+        return oracle_kat(case, out)
     return [('bad-case', 'unknown case line', None)]
 
 
@@ -529,7 +600,7 @@ def oracle(case, out):
 
 def reduce_case(case, ti):
     """smallest scenario that still contains the offending candidate: all saves and clock changes, one candidate"""
-    if ti is None:
+    if ti is None or case.startswith('kat '):
         return case
     ct = case.split(' ')
     if ct[0] == 'scn':
@@ -865,7 +936,7 @@ def gen_pool(ctx):
             a[k] = hx(v)
         a['kv'] = ';'.join('%s:%s' % (hexs(k), hexs(v)) for k, v in kvs)
         a['prim'] = pool_prim_token(a)
-        order = ['prim', 'now', 'enc', 'mac', 'cbc', 'key', 'hkey', 'ckey', 'timeout', 'expire', 'kv']
+        order = ['prim', 'now', 'enc', 'mac', 'cbc', 'key', 'hkey', 'ckey', 'keyfile', 'hkeyfile', 'ckeyfile', 'timeout', 'expire', 'kv']
         return 'pool ' + ' '.join('%s=%s' % (k, a[k]) for k in order if k in a) + ' ' + ' '.join(ops)
 
     def kvset():
@@ -888,6 +959,12 @@ def gen_pool(ctx):
              dict(enc='aes-192', key=hk(33)), dict(enc='aes256', key=hk(52)), dict(enc='aes-256', key=hk(32)), dict(enc='aes256', key=hk(64)),
              dict(mac='sha1', cbc='aes192', hkey=hk(20), ckey=hk(24)), dict(mac='sha512', cbc='aes256', hkey=hk(64), ckey=hk(32)),
              dict(mac='md5', cbc='AES-256', hkey=hk(5), ckey=hk(32)), dict(mac='SHA1', cbc='AES', hkey=hk(20), ckey=hk(16))]
+    # keys read from files: trailing blanks and line ends are dropped, everything else must be hex
+    good += [dict(enc='hmac', keyfile=hk(20) + '\n'), dict(enc='hmac-sha256', keyfile=hk(32) + ' \t\r\n\n'),
+             dict(enc='aes', keyfile=hk(36).upper() + '\r\n'), dict(mac='sha1', hkeyfile=hk(16)),
+             dict(mac='sha256', cbc='aes', hkeyfile=hk(32) + '\n', ckeyfile=hk(16) + '\n'),
+             dict(mac='sha1', cbc='aes256', hkey=hk(20), ckeyfile=hk(32) + '  '),
+             dict(enc='hmac', key='zz', keyfile=hk(16) + '\n')]        # the file wins over the inline key
     for opts in good:
         now = rng.choice([1000, 1000000000, 2 ** 31 + 7])
         timeout = rng.choice([1, 10, 3600, 86400])
@@ -919,13 +996,30 @@ def gen_pool(ctx):
            dict(mac='sha1', cbc='aes', hkey=K, ckey=hk(15)), dict(mac='sha1', cbc='aes', hkey=K, ckey=hk(17)), dict(mac='sha1', cbc='aes256', hkey=K, ckey=hk(16)),
            dict(mac='sha1', cbc='aes192', hkey=K, ckey=hk(32)), dict(mac='sha1', cbc='des', hkey=K, ckey=K), dict(mac='sha3', cbc='aes', hkey=K, ckey=K),
            dict(mac='sha1', cbc='aes', hkey=K, ckey=''), dict(mac='sha1', cbc='aes', hkey='', ckey=K)]
+    bad += [dict(enc='hmac', keyfile=''), dict(enc='hmac', keyfile='\n'), dict(enc='hmac', keyfile=' \n\t'), dict(enc='hmac', keyfile='\n' + K),
+            dict(enc='hmac', keyfile=K[:16] + ' ' + K[16:]), dict(enc='hmac', keyfile=K + 'a\n'), dict(enc='hmac', keyfile=hk(15) + '\n'),
+            dict(enc='hmac', keyfile=K + '\n#'), dict(mac='sha1', hkeyfile=''), dict(mac='sha1', cbc='aes', hkey=K, ckeyfile=''),
+            dict(mac='sha1', cbc='aes', hkeyfile='', ckey=K), dict(mac='sha1', cbc='aes', hkey=K, ckeyfile=hk(17) + '\n'),
+            dict(enc='aes', keyfile=hk(15) + '\n'), dict(enc='hmac', keyfile=K + '\x00')]
     for opts in bad:
         cases.append(line(1000, opts, 10, [(b'a', b'b')], ['c:0,0,$', 'raw:43']))
     return cases
 
 
+def gen_kat(ctx):
+    rng = ctx.rng
+    cases = ['kat aes %s %s' % kv for kv in KAT_AES]
+    for alg in ALGS:
+        for kl in (0, 1, 16, 20, 63, 64, 65, 127, 128, 129, 200):
+            for ml in (0, 1, 55, 56, 64, 111, 112, 128, 300):
+                if ctx.quick() and rng.random() < 0.6:
+                    continue
+                cases.append('kat %s %s %s' % (alg, rkey(rng, kl), rkey(rng, ml)))
+    return cases
+
+
 def gen_cases(ctx):
-    return gen_scn(ctx) + gen_pool(ctx)
+    return gen_kat(ctx) + gen_scn(ctx) + gen_pool(ctx)
 
 
 # ------------------------------------------------------------------------------------------
@@ -981,10 +1075,20 @@ def run_differential(ctx, cases, exe, mexe):
         for key, desc, ti in oracle_all(c, o):
             red = reduce_case(c, ti)
             ctx.fail(key, desc + '\n  case: %s\n  impl: %s' % (red[:600], o[:300]), red)
+        if not crashed(o) and not c.startswith('kat '):
+            r = check_prims(parse_impl(o)[2])
+            if r:
+                ctx.fail(r[0], r[1], reduce_case(c, -1) if not c.startswith('pool ') else c)
         if crashed(o):
             continue
         head, items, prims, extra = parse_impl(o)
         ct = c.split(' ')
+        if ct[0] == 'kat':
+            nev += 1
+            hist['kat:' + ct[1]] = hist.get('kat:' + ct[1], 0) + 1
+            mlines.append(c)
+            midx.append(i)
+            continue
         fam = ct[1].split('/')[0] if ct[0] == 'scn' else 'pool'
         cfgL = (ct[1] if ct[2] == '=' else ct[2]) if ct[0] == 'scn' else ct[1]
         nev += max(1, len(items))
@@ -1036,7 +1140,7 @@ def run_differential(ctx, cases, exe, mexe):
                     at, bt = a.split(' '), b.split(' ')
                     k = next((x for x in range(min(len(at), len(bt))) if at[x] != bt[x]), min(len(at), len(bt)))
                     ct = cases[i].split(' ')
-                    start = 4 if ct[0] == 'scn' else pool_split(ct)[1]
+                    start = 4 if ct[0] == 'scn' else pool_split(ct)[1] if ct[0] == 'pool' else len(ct)
                     ops_idx = [x for x in range(start, len(ct)) if not ct[x].startswith('now=')]
                     off = k - 1 - (1 if ct[0] == 'pool' else 0)
                     ti = ops_idx[off] if 0 <= off < len(ops_idx) else None
